@@ -39,6 +39,7 @@ func runC17(c *Ctx) {
 	ruleListEveryDB(c, "C17.15")
 	c04FlushOrder(c, "C17.16")
 	ruleCloseFlushes(c, "C17.17")
+	ruleSessionStateMovesTogether(c, "C17.18")
 }
 
 func c17Paths(c *Ctx, rule string) {
